@@ -138,6 +138,19 @@ func init() {
 		e.extraCtx["timers"] = n
 		return nil
 	}
+	zzapi["zzUnwindIn"] = func(e *Engine, args []Value, fn *ssa.Function) Value {
+		e.extraCtx["unwindFn"] = strArg(e, args[0])
+		n, _ := concInt(args[1].(*smt.Term))
+		if n <= 0 {
+			delete(e.extraCtx, "unwind")
+			delete(e.extraCtx, "unwindIsBug")
+			delete(e.extraCtx, "unwindFn")
+			return nil
+		}
+		e.extraCtx["unwind"] = n
+		e.extraCtx["unwindIsBug"] = args[2].(*smt.Term).IsTrue()
+		return nil
+	}
 	zzapi["zzClockAdvance"] = func(e *Engine, args []Value, fn *ssa.Function) Value {
 		// advance the model clock by at least d nanoseconds
 		c := e.clock()
@@ -310,6 +323,12 @@ func init() {
 	})
 	reg("(time.Time).Add", func(e *Engine, args []Value, fn *ssa.Function) Value {
 		return e.timeValue(e.ctx.Add(e.timeNs(args[0]), args[1].(*smt.Term)))
+	})
+	reg("(time.Time).AddDate", func(e *Engine, args []Value, fn *ssa.Function) Value {
+		// calendar arithmetic approximated by fixed-length years/months (model clock only)
+		y, m, d := args[1].(*smt.Term), args[2].(*smt.Term), args[3].(*smt.Term)
+		days := e.ctx.Add(e.ctx.Add(e.ctx.Bin(smt.OpBVMul, y, e.intC(365)), e.ctx.Bin(smt.OpBVMul, m, e.intC(30))), d)
+		return e.timeValue(e.ctx.Add(e.timeNs(args[0]), e.ctx.Bin(smt.OpBVMul, days, e.ctx.BV(86400*1000000000, 64))))
 	})
 	reg("(time.Time).After", func(e *Engine, args []Value, fn *ssa.Function) Value {
 		return e.ctx.Cmp(smt.OpBVUlt, e.timeNs(args[1]), e.timeNs(args[0]))
